@@ -143,9 +143,10 @@ func TestC06(t *testing.T) {
 		}
 		serverLevel(t, r, dir)
 		auditFileAcrossRestarts(t, r, dir)
+		tornWrites(t, r, dir)
 	}
 	r.Require("calls_with_one_record", "calls_with_no_record", "denied_calls_recorded", "unchanged_conditional_gets", "write_failures_injected", "sync_failures_injected",
-		"mutations_logged_before_effect", "concurrent_lines", "concurrent_durability_checks", "server_level_denials", "audit_file_reopens")
+		"mutations_logged_before_effect", "concurrent_lines", "concurrent_durability_checks", "server_level_denials", "audit_file_reopens", "calls_after_a_torn_record")
 	r.Rule("sequential: seeded histories of ~30 calls (all 9 operations, callers with random rule sets incl. none, names incl. empty and reserved); per call the records captured between invocation and return are compared with the expectation table; in a third of the histories the sink fails the Write or the Sync of one chosen record. Concurrent: 16 goroutines x mixed calls with unique (user, secret) pairs on a real audit file; every line must parse and the multiset of records must equal the expected one. Distinct = (operation, authorised?, records expected, failure injected)")
 }
 
@@ -641,4 +642,118 @@ func firstDiff(a, b []string) int {
 		return len(a)
 	}
 	return len(b)
+}
+
+// tornSink stores bytes like a file on a full disk: the chosen Write stores only a prefix and reports an
+// error (as write(2) does on ENOSPC); earlier and later Writes succeed.
+type tornSink struct {
+	mu     sync.Mutex
+	buf    bytes.Buffer
+	writes int
+	tearAt int
+	keep   int // bytes of the torn write that reach the file (clamped to len-1)
+	full   int // Writes stored completely
+}
+
+func (s *tornSink) Write(p []byte) (int, error) {
+	s.mu.Lock()
+	defer s.mu.Unlock()
+	s.writes++
+	if s.writes == s.tearAt {
+		k := min(s.keep, len(p)-1)
+		s.buf.Write(p[:k])
+		return k, errors.New("injected: no space left on device")
+	}
+	s.full++
+	return s.buf.Write(p)
+}
+func (s *tornSink) Sync() error { return nil }
+
+// tornWrites: one record is torn by the sink; whatever the writer does afterwards, every later call that
+// returns a value, changes state or is refused must have a complete JSON line of its own, and a call whose
+// record could not be written must have had no effect.
+func tornWrites(t *testing.T, r *evid.Run, dir string) {
+	for c := 0; c < r.N(400, 6000); c++ {
+		rng := r.Rand(uint64(31000 + c))
+		snk := &tornSink{tearAt: 2 + rng.IntN(8), keep: []int{1, 2, 10, 40, 100, 1 << 20}[rng.IntN(6)]}
+		path := filepath.Join(dir, fmt.Sprintf("torn%d", c%16), "db")
+		os.RemoveAll(filepath.Dir(path))
+		os.MkdirAll(filepath.Dir(path), 0o700)
+		d, err := db.Open(path, realdb.DummyKey("c06-torn"), audit.New(snk))
+		if err != nil {
+			t.Fatal(err)
+		}
+		m := refmodel.New()
+		cfg := ops.GenCfg{Names: []string{"a", "b"}, Values: [][]byte{[]byte("one"), []byte("two"), []byte("three")},
+			Weights: map[ops.Kind]int{ops.Info: 1, ops.Get: 3, ops.GetVer: 2, ops.Put: 6, ops.Act: 3, ops.DelVer: 2, ops.Delete: 1}}
+		type call struct {
+			user   string
+			op     ops.Op
+			got    ops.Result
+			needed bool
+		}
+		var calls []call
+		var trace []string
+		bad := false
+		for i := 0; i < 14 && !bad; i++ {
+			op := ops.Gen(rng, m, cfg)
+			user := fmt.Sprintf("u%d@verif", i)
+			var rules []refmodel.Rule
+			super := rng.IntN(5) != 0
+			if super {
+				rules = []refmodel.Rule{{Actions: actions, Patterns: []string{"*"}}}
+			}
+			probe := m.Clone()
+			want := ops.ApplyModel(probe, rules, false, op)
+			fullBefore := snk.full
+			if snk.writes >= snk.tearAt {
+				r.Count("calls_after_a_torn_record", 1) // (the unchanged writer refuses all of these: it never trusts the sink again)
+			}
+			got := ops.ApplyReal(d, realdb.Caller(user, rules), op)
+			trace = append(trace, fmt.Sprintf("%s as %s -> %s", op, user, got))
+			r.Eval(1)
+			switch {
+			case got.Class == refmodel.Other && want.Class != refmodel.Other:
+				// failed closed (the audit record could not be written): nothing may have changed
+			case !ops.Agree(want, got):
+				r.Violation("live-result-differs", -1, fmt.Sprintf("torn-write case %d: %s as %s gave %s, model %s", c, op, user, got, want), map[string]any{"history": trace})
+				bad = true
+			default:
+				m = probe
+				// a record is owed for values returned and state changes; a refusal whose record could not be
+				// written is still a refusal (the request fails, nothing is returned), so for refusals the
+				// line is owed only if the sink took the record
+				needed := (got.Class == refmodel.Denied && snk.full > fullBefore) || (got.Class == refmodel.OK && (op.Kind.Mutating() || op.Kind == ops.Get || op.Kind == ops.GetVer))
+				calls = append(calls, call{user, op, got, needed})
+			}
+		}
+		if bad {
+			continue
+		}
+		// (read through a second handle with its own, working, audit writer: the first one's may be latched)
+		var re *refmodel.Model
+		d2, err := realdb.Open(path, realdb.DummyKey("c06-torn"))
+		if err == nil {
+			re, err = realdb.Dump(d2)
+		}
+		if err != nil || re.Canon() != m.Canon() {
+			r.Violation("failed-call-had-an-effect", -1, fmt.Sprintf("torn-write case %d: state %v (err %v) differs from the acknowledged state %s", c, re, err, m.Canon()), map[string]any{"history": trace})
+			continue
+		}
+		users := map[string]bool{}
+		for _, ln := range bytes.Split(snk.buf.Bytes(), []byte("\n")) {
+			var e audit.Entry
+			if json.Unmarshal(ln, &e) == nil {
+				users[e.Principal.User] = true
+			}
+		}
+		for _, cl := range calls {
+			if cl.needed && !users[cl.user] {
+				r.Violation("record-glued-to-a-torn-line", -1, fmt.Sprintf("torn-write case %d (write #%d stored %d bytes then failed): %s as %s returned %s, but the audit log has no complete JSON line for it; log: %q",
+					c, snk.tearAt, snk.keep, cl.op, cl.user, cl.got, snk.buf.String()), map[string]any{"history": trace})
+				break
+			}
+		}
+		r.Distinct(fmt.Sprintf("torn write keep-class=%d", min(snk.keep, 101)))
+	}
 }
